@@ -34,9 +34,25 @@ def add_deps():
 
 def scrub_env():
     """Own the configuration the library reads from the environment"""
+    keep = set(filter(None, os.environ.get("VERIF_KEEP_ENV", "").split(",")))  # set only by run_cases_in_env for its child interpreter
     for k in ("DOCTRANS_LINE_LENGTH", "DOCTRANS_TAB", "FORCE_PK_ID", "EXMOD_OUT_STREAM"):
-        os.environ.pop(k, None)
+        if k not in keep:
+            os.environ.pop(k, None)
     sys.dont_write_bytecode = True
+
+
+def run_cases_in_env(modname, cases, env, tier="quick", seed=0, timeout=3600):
+    """Run cases of a check module in a fresh interpreter with extra environment variables: the library reads some of its configuration
+    (wrap width, tab, FORCE_PK_ID) into module constants at import time, so another value needs another interpreter. -> list of run() results"""
+    import subprocess
+
+    e = dict(os.environ, PYTHONDONTWRITEBYTECODE="1", VERIF_KEEP_ENV=",".join(env))
+    e.update(env)
+    p = subprocess.run([sys.executable, "-B", "-m", "mc.envchild", modname, tier, str(seed)], input=json.dumps(cases, default=repr).encode(), cwd=VERIF, env=e,
+                       stdout=subprocess.PIPE, stderr=subprocess.PIPE, timeout=timeout)
+    if p.returncode != 0 or not p.stdout:
+        raise RuntimeError("env child failed: rc=%s %s" % (p.returncode, p.stderr.decode()[-800:]))
+    return json.loads(p.stdout.decode())
 
 
 def jdump(o):
@@ -340,6 +356,36 @@ def rerun_fresh(modname, case, options=None):
     ctx = multiprocessing.get_context("spawn")
     with ctx.Pool(1) as p:
         return p.apply(_replay_child, ((modname, case, options or {}),))
+
+
+def env_label(env):
+    return ",".join("%s=%s" % (k.replace("DOCTRANS_", "").lower(), v) for k, v in sorted(env.items()))
+
+
+def run_env_block(modname, sub_cases, env, env_index):
+    """run() result for a block of a check's own cases executed under `env` in a child interpreter; every signature gets an `env` key and
+    every violating case an `env` index, so that a replay goes through run_env_case"""
+    results = run_cases_in_env(modname, sub_cases, env)
+    viol, tr, ev, outcomes = [], 0, 0, set()
+    for r in results:
+        tr += r["transitions"]
+        ev += r["evaluations"]
+        outcomes.add(r["outcome"])
+        for v in r["violations"]:
+            v["sig"]["env"] = env_label(env)
+            v["case"] = dict(v["case"], env=env_index)
+            viol.append(v)
+    return dict(outcome=("env:" + "+".join(sorted(outcomes)))[:60], transitions=tr, evaluations=ev, violations=viol, extra=dict(n_case_states=max(len(sub_cases), 1) - 1))
+
+
+def run_env_case(modname, case, envs):
+    """replay of one case that carries an `env` index: again in a child interpreter with that environment"""
+    sub = dict(case)
+    env = envs[sub.pop("env")]
+    r = run_cases_in_env(modname, [sub], env)[0]
+    for v in r["violations"]:
+        v["sig"]["env"] = env_label(env)
+    return dict(outcome=r["outcome"], transitions=r["transitions"], evaluations=r["evaluations"], violations=r["violations"])
 
 
 # ----------------------------------------------------------------------------- driver
